@@ -139,6 +139,34 @@ def llvm_program(req, bridge, C):
     return {"outs": outs}
 
 
+def _operand(spec, C):
+    if "tensor" in spec:
+        t = spec["tensor"]
+        return C.tensor_from_stored(tuple(t["dims"]), t["fmt"], t["stored"])
+    v = spec["scalar"]
+    return {"int": int, "float": float, "bool": bool}[spec["type"]](v)
+
+
+def operator_call(call, C):
+    """{left, right, op in + - * @} -> {"raw":...} | {"raised": name, message}"""
+    import operator as O
+
+    fn = {"+": O.add, "-": O.sub, "*": O.mul, "@": O.matmul}[call["op"]]
+    try:
+        l = _operand(call["left"], C)
+        r = _operand(call["right"], C)
+    except Exception as e:  # noqa: BLE001
+        return {"error": f"operand construction: {type(e).__name__}: {e}"}
+    try:
+        res = fn(l, r)
+    except Exception as e:  # noqa: BLE001
+        return {"raised": type(e).__name__, "message": str(e)[:200]}
+    try:
+        return {"raw": C.raw_of_tensor(res)}
+    except Exception as e:  # noqa: BLE001
+        return {"error": f"result is not a Tensor: {type(res).__name__} {e}"}
+
+
 def main():
     out = os.fdopen(os.dup(1), "w")
     os.dup2(2, 1)
@@ -188,6 +216,8 @@ def main():
                             rep["hence"] = {}
             elif op == "llvm_kernels":
                 rep = llvm_kernels(req, bridge, C)
+            elif op == "operators":
+                rep = {"results": [operator_call(c, C) for c in req["calls"]]}
             elif op == "llvm_program":
                 rep = llvm_program(req, bridge, C)
             else:
